@@ -105,8 +105,8 @@ def zbool(x):
 
 def mk(z):
     """Wrap a z3 term; concrete terms come back as Python values."""
-    z = z3.simplify(z) if not z3.is_const(z) else z
     if z3.is_bool(z):
+        z = z3.simplify(z)
         if z3.is_true(z):
             return True
         if z3.is_false(z):
@@ -844,6 +844,50 @@ class Explorer:
         self.stats.undecided += 1
         self.results.append((label, "unknown", None))
         return None
+
+    def prove_all(self, items):
+        """items: [(cond, label, detail)].  One query for the conjunction; on a counterexample the
+        conjuncts false in that model are recorded as refuted, the others as held-in-this-model."""
+        zs = []
+        for c, label, detail in items:
+            self.stats.obligations += 1
+            if isinstance(c, SBool):
+                zs.append((c.z, label, detail))
+            elif c:
+                self.stats.discharged += 1
+                self.results.append((label, "ok", None))
+            else:
+                self.stats.refuted += 1
+                self.results.append((label, "refuted", {"model": self.witness(), "detail": detail}))
+        if not zs:
+            return
+        r = self._check(z3.Not(z3.And(*[z for z, _, _ in zs])) if len(zs) > 1 else z3.Not(zs[0][0]))
+        if r == z3.unsat:
+            self.stats.discharged += len(zs)
+            seen = set()
+            for _, label, _ in zs:
+                if label not in seen:
+                    seen.add(label)
+                    self.results.append((label, "ok", None))
+            return
+        if r != z3.sat:
+            self.stats.undecided += len(zs)
+            self.results.append(("batch", "unknown", None))
+            return
+        m = self.solver.model()
+        ce = self._model_dict(m)
+        for z, label, detail in zs:
+            if z3.is_false(m.eval(z, model_completion=True)):
+                self.stats.refuted += 1
+                self.results.append((label, "refuted", {"model": ce, "detail": detail}))
+            else:
+                self.stats.discharged += 1   # held in this model; not separately decided
+
+    def holds(self, c):
+        """True when c holds for every input of this path (no obligation is recorded)."""
+        if not isinstance(c, SBool):
+            return bool(c)
+        return self._check(z3.Not(c.z)) == z3.unsat
 
     def witness(self, extra=None):
         if extra is not None and isinstance(extra, SBool):
